@@ -393,6 +393,8 @@ def compare_history(model, impl, project=None):
         a, b = mc[k], ic[k]
         if a['status'] == 'raise' and a.get('exn') == 'Unsupported':
             return 'SKIP'
+        if a['status'] == 'fuel' and b['status'] == 'raise' and b.get('exn') == 'Recursion':
+            break   # unbounded recursion: the model runs out of fuel, CPython out of stack
         if a['status'] != b['status']:
             return 'call %d: model %s%s, impl %s%s' % (
                 k, a['status'], '(' + a.get('exn', '') + ')' if a['status'] == 'raise' else '',
